@@ -16,16 +16,18 @@ the exact correspondence run of `./check C05`) and the abstract specifications `
 map from node pairs to weights) / `AppendSpec.ML` (the insertion log).  All statements quantify over the
 binary-search cut-off, the index width, the edge type and `debug`.
 
-**Scope restriction (finding D31).**  The refinement theorems carry a hypothesis `Fits` / `LFits` / `hfit`:
-no `add_node*` call is made while `node_count` has already reached the capacity of the index type
-(`modulus` = 256 for `u8`, 65536 for `u16`, …; `modulus = 0` models `usize` = no bound).  This is not a
-convenience assumption: beyond the capacity the real code does *not* meet the specification.  `Csr::add_node`
-and `adj::List::add_node` / `add_node_with_capacity` / `add_node_from_edges` return `Ix::new(i)` = `i as u8`,
-which silently WRAPS: the 257th node of a `Csr<_, _, _, u8>` is reported as index 0, a node that already
-exists (no panic, no `Err`, unlike `Graph::add_node`, which asserts).  The models reproduce the wrap
-(`mkIx`), and `C05_csr_add_node_wraps`, `C05_csr_add_node_wraps_counterexample`, `C05_list_add_node_wraps`,
-`C05_list_add_node_wraps_counterexample` below prove it.  Histories beyond the capacity are therefore
-*excluded* from every `Fits`-hypothesis theorem, and nothing is claimed about them except these findings.
+**The capacity of the index type (finding D31, repaired by /repo commit 8cab180).**  `modulus` is the number of
+values of the node index type (256 for `u8`, 65536 for `u16`, …; `modulus = 0` models `usize` = no bound).  Up to
+that commit `Csr::add_node` and `adj::List::add_node` / `add_node_with_capacity` / `add_node_from_edges` returned
+`Ix::new(i)` = `i as u8`, which silently WRAPPED: the 257th node of a `Csr<_, _, _, u8>` was reported as index 0, a
+node that already existed, and the refinement theorems of this file had to exclude such histories by a hypothesis
+(`Fits` / `LFits` / `hfit`).  The repaired code asserts `i <= Ix::max().index()` before the first write: at the
+capacity the call is the *documented panic* and the structure is unchanged.  The models (`CsrM.addNode`,
+`AdjM.nextNodeIndex`) and the specifications (`AppendSpec.full`, `SG.addNodeCap`, `ML.addNodeCap`,
+`ML.addNodeFromCap`; the spec machines take the capacity as a parameter) follow, and the refinement theorems now
+hold for EVERY history, without those hypotheses.  `C05_csr_add_node_capacity`, `C05_list_add_node_capacity`
+(general form), `C05_csr_no_wrap_all_histories`, `C05_list_no_wrap_all_histories` (no returned index ever wraps)
+and `C05_D31_witness_repaired_csr`, `C05_D31_witness_repaired_list` (the old counterexample histories) record it.
 -/
 namespace PetgraphModel.C05T
 open PetgraphModel PetgraphModel.AppendSpec
@@ -47,9 +49,9 @@ abbrev Abs := CsrProofs.Abs
 abbrev specStep := CsrProofs.specStep
 abbrev specRun := CsrProofs.specRun
 /-- `Fits m n ops`: starting from `n` nodes, no `add_node` in `ops` is issued when the node count has already
-reached the capacity `m` of the index type (`m = 0`: unbounded).  Histories that violate this are EXCLUDED
-from the theorems below because of the recorded finding D31: there `add_node` returns the wrapped index
-`node_count % m` of an already existing node (`C05_csr_add_node_wraps`). -/
+reached the capacity `m` of the index type (`m = 0`: unbounded), i.e. the history never runs into the capacity
+panic of `add_node`.  No theorem of this file needs it any more (before the repair of finding D31 the refinement
+theorems did); it is kept for the C06 theorems that still state it. -/
 abbrev Fits := CsrProofs.Fits
 abbrev SGEquiv := CsrProofs.SGEquiv
 abbrev SameParams := CsrProofs.SameParams
@@ -99,8 +101,10 @@ theorem C05_csr_inv_step (s : State) (op : Op) (h : Inv s) : Inv (step s op).1 :
   obtain ⟨R, good⟩ := h
   cases op with
   | addNode w =>
-    obtain ⟨s', e, good', _⟩ := good.addNode w
-    exact ⟨_, by simpa [step, e] using good'⟩
+    by_cases hfit : s.modulus = 0 ∨ R.length < s.modulus
+    · obtain ⟨s', e, good', _⟩ := good.addNode w hfit
+      exact ⟨_, by simpa [step, e] using good'⟩
+    · exact ⟨R, by simpa [step, good.addNode_full w hfit] using good⟩
   | clearEdges => exact ⟨_, good.clearEdges⟩
   | setWeight a w =>
     by_cases ha : a < R.length
@@ -159,18 +163,20 @@ theorem C05_csr_out_of_range (s : State) (h : Inv s) (a b : Nat) (w : Int)
   have e := good.tryAddEdge_oob a b w hr
   exact ⟨by simp [step, e], by simp [step, CsrM.addEdge, e]⟩
 
-/-- no valid call panics: under the invariant `add_node`, `clear_edges`, and `add_edge`/`try_add_edge`/
-`IndexMut` with in-range arguments never hit an index, slice or `Vec::insert` panic nor the
-`debug_assert_eq!` of `try_add_edge` (in debug or release). -/
+/-- no valid call panics: under the invariant `clear_edges`, `add_node` below the capacity of the index type, and
+`add_edge`/`try_add_edge`/`IndexMut` with in-range arguments never hit an index, slice or `Vec::insert` panic nor
+the `debug_assert_eq!` of `try_add_edge` (in debug or release).  (`add_node` AT the capacity is the documented
+panic of commit 8cab180 — `C05_csr_add_node_capacity`; before that commit it did not panic but wrapped, D31.) -/
 theorem C05_csr_no_panic (s : State) (h : Inv s) (op : Op)
     (hv : match op with
       | .addEdge a b _ | .tryAddEdge a b _ => a < s.nodeCount ∧ b < s.nodeCount
       | .setWeight a _ => a < s.nodeCount
+      | .addNode _ => s.modulus = 0 ∨ s.nodeCount < s.modulus
       | _ => True) : (step s op).2 ≠ .panic := by
   obtain ⟨R, good⟩ := h
   rw [good.rep.nodeCount] at hv
   cases op with
-  | addNode w => obtain ⟨s', e, _⟩ := good.addNode w; simp [step, e]
+  | addNode w => obtain ⟨s', e, _⟩ := good.addNode w hv; simp [step, e]
   | clearEdges => simp [step]
   | setWeight a w => obtain ⟨s', e, _⟩ := good.setWeight a w hv; simp [step, e]
   | tryAddEdge a b w =>
@@ -183,31 +189,27 @@ theorem C05_csr_no_panic (s : State) (h : Inv s) (op : Op)
     · simp [step, CsrM.addEdge, good.tryAddEdge_present a b w hv.1 hv.2 hp]
 
 /-- **refinement, one call**: invariant and abstraction are preserved and the answer is the one the
-abstract simple graph prescribes (`true`/`false`/`Err`/panic, the new node's index).
-`hfit`: an `add_node` call is only covered while `node_count < modulus` (or `modulus = 0`); at the capacity of
-the index type the call is excluded because its answer is wrong — finding D31, `C05_csr_add_node_wraps`. -/
+abstract simple graph prescribes (`true`/`false`/`Err`/panic, the new node's index) — for EVERY call, including
+`add_node` at the capacity of the index type, where specification and model agree on "documented panic,
+nothing changes".  (The hypothesis `hfit` that excluded that call before the repair of D31 is gone.) -/
 theorem C05_csr_refines_step (s : State) (R : List CsrProofs.Row) (g : SG) (good : Good s R) (abs : Abs s R g)
-    (op : Op) (hfit : ∀ w, op = .addNode w → s.modulus = 0 ∨ s.nodeCount < s.modulus) :
-    ∃ R', Good (step s op).1 R' ∧ Abs (step s op).1 R' (specStep g op).1 ∧ (step s op).2 = (specStep g op).2 := by
-  rw [good.rep.nodeCount] at hfit
-  obtain ⟨R', h1, h2, h3, _⟩ := step_refines good abs op hfit
+    (op : Op) :
+    ∃ R', Good (step s op).1 R' ∧ Abs (step s op).1 R' (specStep s.modulus g op).1 ∧
+      (step s op).2 = (specStep s.modulus g op).2 := by
+  obtain ⟨R', h1, h2, h3, _⟩ := step_refines good abs op
   exact ⟨R', h1, h2, h3⟩
 
-/-- **refinement, all histories**: after any sequence of `add_node`/`add_edge`/`try_add_edge`/`clear_edges`/
-`IndexMut` calls (valid or not) on `with_nodes(n)` (`new()` is `n = 0`), directed or undirected, any index
-width and cut-off: the invariant holds, the state represents exactly the abstract graph the same calls build,
-and every answer along the way was the specified one.
-`hf : Fits m n ops` restricts the histories to those that never call `add_node` at the capacity of the index
-type; histories beyond it are excluded, not proved harmless: there `add_node` wraps to the index of a live
-node (finding D31, `C05_csr_add_node_wraps_counterexample`). -/
-theorem C05_csr_all_histories (d : Bool) (m c : Nat) (dbg : Bool) (n : Nat) (ops : List Op) (hf : Fits m n ops) :
+/-- **refinement, all histories**: after ANY sequence of `add_node`/`add_edge`/`try_add_edge`/`clear_edges`/
+`IndexMut` calls (valid or not, within the capacity of the index type or running into it) on `with_nodes(n)`
+(`new()` is `n = 0`), directed or undirected, any index width and cut-off: the invariant holds, the state
+represents exactly the abstract graph the same calls build, and every answer along the way was the specified one.
+(The hypothesis `Fits m n ops` that restricted the histories before the repair of D31 is gone.) -/
+theorem C05_csr_all_histories (d : Bool) (m c : Nat) (dbg : Bool) (n : Nat) (ops : List Op) :
     let s := (run (withNodes d m c dbg n) ops).1
     let g0 : SG := { directed := d, nodes := List.replicate n 0, edges := [] }
-    ∃ R, Good s R ∧ Abs s R (specRun g0 ops).1 ∧ (run (withNodes d m c dbg n) ops).2 = (specRun g0 ops).2 := by
+    ∃ R, Good s R ∧ Abs s R (specRun m g0 ops).1 ∧ (run (withNodes d m c dbg n) ops).2 = (specRun m g0 ops).2 := by
   have h0 := C05_csr_inv_init d m c dbg n
-  have hf' : Fits (withNodes d m c dbg n).modulus (List.replicate n ([] : CsrProofs.Row)).length ops := by
-    simpa [withNodes] using hf
-  obtain ⟨R, h1, h2, h3, _⟩ := run_refines (good_withNodes d m c dbg n) h0.2.2 ops hf'
+  obtain ⟨R, h1, h2, h3, _⟩ := run_refines (good_withNodes d m c dbg n) h0.2.2 ops
   exact ⟨R, h1, h2, h3⟩
 
 /-- **the readers report exactly the abstract graph**: `neighbors_slice`/`edges_slice` are the ascending
@@ -267,15 +269,13 @@ theorem C05_csr_canonical (s1 s2 : State) (R1 R2 : List CsrProofs.Row) (g1 g2 : 
 
 /-- **insertion-order independence**: two call histories from the same start after which the specification
 holds the same abstract graph (the order of its edge list is not compared) leave the same `Csr` value.
-(`Fits`: both histories stay within the capacity of the index type — finding D31 excludes the others.) -/
+(Any two histories: the `Fits` hypotheses that were needed before the repair of D31 are gone.) -/
 theorem C05_csr_order_independent (d : Bool) (m c : Nat) (dbg : Bool) (n : Nat) (ops1 ops2 : List Op)
-    (h1 : Fits m n ops1) (h2 : Fits m n ops2)
-    (heq : SGEquiv (specRun { directed := d, nodes := List.replicate n 0, edges := [] } ops1).1
-                   (specRun { directed := d, nodes := List.replicate n 0, edges := [] } ops2).1) :
+    (heq : SGEquiv (specRun m { directed := d, nodes := List.replicate n 0, edges := [] } ops1).1
+                   (specRun m { directed := d, nodes := List.replicate n 0, edges := [] } ops2).1) :
     (run (withNodes d m c dbg n) ops1).1 = (run (withNodes d m c dbg n) ops2).1 := by
   have h0 := C05_csr_inv_init d m c dbg n
-  exact order_independent (good_withNodes d m c dbg n) h0.2.2 ops1 ops2
-    (by simpa [withNodes] using h1) (by simpa [withNodes] using h2) heq
+  exact order_independent (good_withNodes d m c dbg n) h0.2.2 ops1 ops2 heq
 
 /-- **`from_sorted_edges` succeeds exactly on strictly sorted, duplicate-free input** (lexicographic order on
 `(source, target)`; in-range is automatic because the node count is the largest endpoint + 1). -/
@@ -310,11 +310,12 @@ example : (run (withNodes false 256 32 true 3) [.addEdge 0 2 5, .tryAddEdge 2 1 
 example : (run (withNodes false 256 32 true 3) [.tryAddEdge 1 2 7, .addEdge 2 0 5]).1
     = (run (withNodes false 256 32 true 3) [.addEdge 0 2 5, .tryAddEdge 2 1 7, .addEdge 0 2 9, .tryAddEdge 1 3 1]).1 := by decide
 
-/-! ### wave 3: node readers, capacity of the index type (finding D31) -/
+/-! ### wave 3: node readers, capacity of the index type (finding D31, repaired) -/
 
 /-- **`node_identifiers()` / `node_references()` / `IntoNeighbors::neighbors`**: within the capacity of the index
-type (`hcap`; otherwise `Ix::new(i)` wraps — D31) `node_identifiers()` yields `0, 1, …, n-1`,
-`node_references()` pairs each index with the specified node weight, and `neighbors(a)` (which is
+type (`hcap`: it holds in every state reachable from `with_nodes(n)`, `n ≤ modulus` —
+`C05_csr_node_readers_all_histories`; `with_nodes` itself does not check it) `node_identifiers()` yields
+`0, 1, …, n-1`, `node_references()` pairs each index with the specified node weight, and `neighbors(a)` (which is
 `neighbors_slice(a).iter()`) yields the specified successors of an existing node in ascending order. -/
 theorem C05_csr_node_readers (s : State) (R : List CsrProofs.Row) (g : SG) (good : Good s R) (abs : Abs s R g)
     (hcap : s.modulus = 0 ∨ g.n ≤ s.modulus) :
@@ -323,64 +324,108 @@ theorem C05_csr_node_readers (s : State) (R : List CsrProofs.Row) (g : SG) (good
   ⟨(node_readers good abs hcap).1, (node_readers good abs hcap).2, fun a ha => ((readers good abs a).1 ha).1⟩
 
 /-- … without the capacity assumption: each position is passed through `Ix::new` (`mkIx`), so beyond the capacity
-the same identifier is yielded for several nodes. -/
+(reachable only through `with_nodes(n)` with `n > modulus`) the same identifier is yielded for several nodes. -/
 theorem C05_csr_node_readers_raw (s : State) (R : List CsrProofs.Row) (g : SG) (good : Good s R) (abs : Abs s R g) :
     nodeIdentifiers s = (List.range g.n).map (mkIx s.modulus) ∧
     nodeReferences s = ((List.range g.n).map (mkIx s.modulus)).zip g.nodes :=
   node_readers_raw good abs
 
-/-- **node readers, all histories**: after any history from `with_nodes(n)` that stays within the capacity of the
-index type (`n ≤ m` to begin with, `Fits` afterwards — D31 excludes the rest) the node readers report exactly the
-nodes of the abstract graph the same calls build. -/
+/-- **node readers, all histories**: after ANY history from `with_nodes(n)` with `n` within the capacity of the
+index type (`hn`; the `Fits` hypothesis that was needed before the repair of D31 is gone) the node readers report
+exactly the nodes of the abstract graph the same calls build. -/
 theorem C05_csr_node_readers_all_histories (d : Bool) (m c : Nat) (dbg : Bool) (n : Nat) (ops : List Op)
-    (hf : Fits m n ops) (hn : m = 0 ∨ n ≤ m) :
+    (hn : m = 0 ∨ n ≤ m) :
     let s := (run (withNodes d m c dbg n) ops).1
-    let g := (specRun { directed := d, nodes := List.replicate n 0, edges := [] } ops).1
+    let g := (specRun m { directed := d, nodes := List.replicate n 0, edges := [] } ops).1
     nodeIdentifiers s = List.range g.n ∧ nodeReferences s = (List.range g.n).zip g.nodes ∧
     s.nodeCount = g.n ∧
     ∀ a, a < g.n → neighborsSlice s a = some ((g.succ a).map (·.1)) :=
-  run_node_readers d m c dbg n ops hf hn
+  run_node_readers d m c dbg n ops hn
 
-/-- a history that `Fits` ends within the capacity of the index type -/
-theorem C05_csr_fits_capacity (m : Nat) (ops : List Op) (g : SG) (hf : Fits m g.n ops) (hc : m = 0 ∨ g.n ≤ m) :
-    m = 0 ∨ (specRun g ops).1.n ≤ m :=
-  CsrProofs.fits_cap m ops g hf hc
+/-- EVERY history that starts within the capacity of the index type ends within it: `add_node` panics rather than
+exceed it.  (Before the repair of D31 this needed `Fits m g.n ops`.) -/
+theorem C05_csr_fits_capacity (m : Nat) (ops : List Op) (g : SG) (hc : m = 0 ∨ g.n ≤ m) :
+    m = 0 ∨ (specRun m g ops).1.n ≤ m :=
+  CsrProofs.run_cap m ops g hc
 
-/-- **finding D31, general form**: in every valid `Csr` state whose node count has reached the capacity of the
-index type (`modulus ≠ 0`, `modulus ≤ node_count`; for `u8`: 256 nodes) `add_node` does not panic and returns
-`node_count % modulus` — strictly below `node_count`, i.e. the index of a node that ALREADY EXISTS — whereas the
-specification answers the fresh index `node_count`.  The representation invariant survives (the row is added);
-the returned index is wrong. -/
-theorem C05_csr_add_node_wraps (s : State) (R : List CsrProofs.Row) (g : SG) (good : Good s R) (abs : Abs s R g)
-    (hm : s.modulus ≠ 0) (hc : s.modulus ≤ g.n) (w : Int) :
-    (step s (.addNode w)).2 = .ix (g.n % s.modulus) ∧ g.n % s.modulus < g.n ∧
-    (specStep g (.addNode w)).2 = .ix g.n ∧
-    (step s (.addNode w)).2 ≠ (specStep g (.addNode w)).2 ∧
-    Good (step s (.addNode w)).1 (R ++ [[]]) :=
-  addNode_wraps good abs hm hc w
+/-- **finding D31 repaired, general form — `add_node` and the capacity of the index type**, in every valid `Csr`
+state.  At the capacity (`modulus ≠ 0`, `modulus ≤ node_count`; for `u8`: 256 nodes) `add_node` is the documented
+panic (`none`) and the state is unchanged; below the capacity it succeeds, returns the FRESH index `node_count` —
+which is `< modulus`, so it fits the index type and `Ix::new` does not alter it — the invariant is kept, there is
+one node more and its weight is the given one. -/
+theorem C05_csr_add_node_capacity (s : State) (h : Inv s) (w : Int) :
+    (s.modulus ≠ 0 ∧ s.modulus ≤ s.nodeCount →
+      addNode s w = none ∧ step s (.addNode w) = (s, .panic)) ∧
+    (s.modulus = 0 ∨ s.nodeCount < s.modulus →
+      ∃ s', addNode s w = some (s', s.nodeCount) ∧ step s (.addNode w) = (s', .ix s.nodeCount) ∧
+        Inv s' ∧ s'.nodeCount = s.nodeCount + 1 ∧ s'.nodeWeights = s.nodeWeights ++ [w] ∧
+        mkIx s.modulus s.nodeCount = s.nodeCount) := by
+  obtain ⟨R, good⟩ := h
+  obtain ⟨h1, h2⟩ := addNode_capacity good w
+  refine ⟨fun hc => h1 (by omega), fun hf => ?_⟩
+  obtain ⟨s', e1, e2, good', rest⟩ := h2 hf
+  exact ⟨s', e1, e2, ⟨_, good'⟩, rest⟩
+
+/-- … and against the specification: at the capacity model and abstract graph both answer "panic" and both stay
+as they are; below it both answer the fresh index `g.n`. -/
+theorem C05_csr_add_node_capacity_spec (s : State) (R : List CsrProofs.Row) (g : SG) (good : Good s R)
+    (abs : Abs s R g) (w : Int) :
+    (s.modulus ≠ 0 ∧ s.modulus ≤ g.n →
+      step s (.addNode w) = (s, .panic) ∧ specStep s.modulus g (.addNode w) = (g, .panic)) ∧
+    (s.modulus = 0 ∨ g.n < s.modulus →
+      (step s (.addNode w)).2 = .ix g.n ∧ (specStep s.modulus g (.addNode w)).2 = .ix g.n ∧
+      (specStep s.modulus g (.addNode w)).1.n = g.n + 1) := by
+  have hn : s.nodeCount = g.n := (readers good abs 0).2.2.2.2
+  obtain ⟨h1, h2⟩ := addNode_capacity good w
+  rw [hn] at h1 h2
+  refine ⟨fun hc => ?_, fun hf => ?_⟩
+  · have hfull : ¬ (s.modulus = 0 ∨ g.n < s.modulus) := by omega
+    exact ⟨(h1 hfull).2, by simp [CsrProofs.specStep, SG.addNodeCap_full s.modulus g w hfull]⟩
+  · obtain ⟨s', _, e2, _⟩ := h2 hf
+    refine ⟨by rw [e2], by simp [CsrProofs.specStep, SG.addNodeCap_fit s.modulus g w hf, SG.addNode], ?_⟩
+    simp [CsrProofs.specStep, SG.addNodeCap_fit s.modulus g w hf, SG.addNode, SG.n]
 
 /-- the node index an answer carries, if it is one (`Out` has no decidable equality) -/
 abbrev outIx := CsrProofs.outIx
 
-/-- **finding D31, concrete witness** (a 2-bit index type, `modulus = 4`; the `u8` case is the instance
-`modulus = 256` of `C05_csr_add_node_wraps`): five `add_node` calls on `Csr::new()` — the history does not `Fit` —
-answer `0, 1, 2, 3, 0`: the fifth node is reported as index 0, which is already live (weight 10), while the
-specification answers `0, 1, 2, 3, 4`.  Afterwards `node_count() = 5` but `node_identifiers()` yields 0 twice and
-`node_references()` attaches the fifth weight to index 0; `Index[0]` is still the first node. -/
-theorem C05_csr_add_node_wraps_counterexample :
-    ¬ Fits 4 0 [.addNode 10, .addNode 11, .addNode 12, .addNode 13, .addNode 14] ∧
+/-- **no wrap in any history**: along EVERY history from `with_nodes(n)` with `n` within the capacity of the index
+type, the node count never exceeds the capacity and every index an `add_node` call returns fits the index type
+(`i < modulus`: `Ix::new(i)` is `i`) and is at least `n` (it is the node count at the time of the call — never the
+index of a node that existed at the start, let alone one that exists at the time of the call). -/
+theorem C05_csr_no_wrap_all_histories (d : Bool) (m c : Nat) (dbg : Bool) (n : Nat) (ops : List Op)
+    (hn : m = 0 ∨ n ≤ m) :
+    (m = 0 ∨ (run (withNodes d m c dbg n) ops).1.nodeCount ≤ m) ∧
+    ∀ i, some i ∈ (run (withNodes d m c dbg n) ops).2.map outIx → (m = 0 ∨ i < m) ∧ n ≤ i := by
+  have := run_no_wrap (good_withNodes d m c dbg n) (by simpa [withNodes] using hn) ops
+  simpa [withNodes] using this
+
+/-- **finding D31, the old witness, repaired** (a 2-bit index type, `modulus = 4`; the `u8` case is the instance
+`modulus = 256` of `C05_csr_add_node_capacity`): five `add_node` calls on `Csr::new()` used to answer
+`0, 1, 2, 3, 0` (the fifth node reported as the live index 0).  Now the model answers `0, 1, 2, 3, panic` exactly as
+the specification does, and the fifth call changes nothing: the state after five calls IS the state after four,
+`node_count() = 4`, `node_identifiers()` is duplicate-free, `node_references()` still has the four weights and
+`Index[0]` is the first node. -/
+theorem C05_D31_witness_repaired_csr :
     ((run (new true 4 32 true) [.addNode 10, .addNode 11, .addNode 12, .addNode 13, .addNode 14]).2.map outIx
-        = [some 0, some 1, some 2, some 3, some 0] ∧
-     (specRun {} [.addNode 10, .addNode 11, .addNode 12, .addNode 13, .addNode 14]).2.map outIx
-        = [some 0, some 1, some 2, some 3, some 4] ∧
-     (run (new true 4 32 true) [.addNode 10, .addNode 11, .addNode 12, .addNode 13, .addNode 14]).1.nodeCount = 5 ∧
+        = [some 0, some 1, some 2, some 3, none] ∧
+     (run (new true 4 32 true) [.addNode 10, .addNode 11, .addNode 12, .addNode 13, .addNode 14]).2.map CsrProofs.outPanic
+        = [false, false, false, false, true] ∧
+     (specRun 4 {} [.addNode 10, .addNode 11, .addNode 12, .addNode 13, .addNode 14]).2.map outIx
+        = [some 0, some 1, some 2, some 3, none] ∧
+     (specRun 4 {} [.addNode 10, .addNode 11, .addNode 12, .addNode 13, .addNode 14]).2.map CsrProofs.outPanic
+        = [false, false, false, false, true] ∧
+     (run (new true 4 32 true) [.addNode 10, .addNode 11, .addNode 12, .addNode 13, .addNode 14]).1
+        = (run (new true 4 32 true) [.addNode 10, .addNode 11, .addNode 12, .addNode 13]).1 ∧
+     (specRun 4 {} [.addNode 10, .addNode 11, .addNode 12, .addNode 13, .addNode 14]).1
+        = (specRun 4 {} [.addNode 10, .addNode 11, .addNode 12, .addNode 13]).1 ∧
+     (run (new true 4 32 true) [.addNode 10, .addNode 11, .addNode 12, .addNode 13, .addNode 14]).1.nodeCount = 4 ∧
      nodeIdentifiers (run (new true 4 32 true) [.addNode 10, .addNode 11, .addNode 12, .addNode 13, .addNode 14]).1
-        = [0, 1, 2, 3, 0] ∧
+        = [0, 1, 2, 3] ∧
      nodeReferences (run (new true 4 32 true) [.addNode 10, .addNode 11, .addNode 12, .addNode 13, .addNode 14]).1
-        = [(0, 10), (1, 11), (2, 12), (3, 13), (0, 14)] ∧
+        = [(0, 10), (1, 11), (2, 12), (3, 13)] ∧
      index (run (new true 4 32 true) [.addNode 10, .addNode 11, .addNode 12, .addNode 13, .addNode 14]).1 0
         = some 10) := by
-  refine ⟨by simp [CsrProofs.Fits, CsrProofs.nodesAfter], by decide⟩
+  decide
 
 end Csr
 
@@ -395,30 +440,27 @@ abbrev lspecStep := AdjProofs.specStep
 abbrev lspecRun := AdjProofs.specRun
 /-- `LFits m n ops`: starting from `n` nodes, no `add_node` / `add_node_from_edges` in `ops` is issued when the
 node count has already reached the capacity `m` of the index type (`m = 0`: unbounded; `clear` resets the
-count).  Histories that violate this are EXCLUDED from the theorems below because of the recorded finding
-D31: there `add_node*` returns the wrapped index `node_count % m` of an already existing node
-(`C05_list_add_node_wraps`). -/
+count), i.e. the history never runs into the capacity panic of `add_node*`.  No theorem of this file needs it any
+more (before the repair of finding D31 the refinement theorems did); it is kept for the C06 theorems that still
+state it. -/
 abbrev LFits := AdjProofs.Fits
 
 /-- **refinement, one call**: `add_node*`, `add_edge`, `update_edge`, `edge_weight_mut`, `clear` with arbitrary
 arguments act on the rows exactly as the specification acts on the insertion log, and answer the same
-(`EdgeIndex`, node index, documented panic + unchanged for an out-of-range endpoint).
-`hfit`: an `add_node*` call is only covered while `node_count < modulus` (or `modulus = 0`); at the capacity of
-the index type the call is excluded because its answer is wrong — finding D31, `C05_list_add_node_wraps`. -/
-theorem C05_list_refines_step (s : AdjM.State) (g : ML) (h : LAbs s g) (op : AdjM.Op)
-    (hfit : (op = .addNode ∨ ∃ es, op = .addNodeFromEdges es) → s.modulus = 0 ∨ g.n < s.modulus) :
-    LAbs (AdjM.step s op).1 (lspecStep g op).1 ∧ (AdjM.step s op).2 = (lspecStep g op).2 := by
-  obtain ⟨h1, h2, _⟩ := AdjProofs.step_refines h op hfit
+(`EdgeIndex`, node index, documented panic + unchanged for an out-of-range endpoint and for `add_node*` at the
+capacity of the index type).  (The hypothesis `hfit` that excluded the latter before the repair of D31 is gone.) -/
+theorem C05_list_refines_step (s : AdjM.State) (g : ML) (h : LAbs s g) (op : AdjM.Op) :
+    LAbs (AdjM.step s op).1 (lspecStep s.modulus g op).1 ∧ (AdjM.step s op).2 = (lspecStep s.modulus g op).2 := by
+  obtain ⟨h1, h2, _⟩ := AdjProofs.step_refines h op
   exact ⟨h1, h2⟩
 
 /-- **refinement, all histories** from `List::new()`: parallel edges are kept (the log only grows, except
-`clear`), every answer is the specified one.
-`hf : LFits m 0 ops` restricts the histories to those that never add a node at the capacity of the index type;
-histories beyond it are excluded, not proved harmless: there `add_node*` wraps to the index of a live node
-(finding D31, `C05_list_add_node_wraps_counterexample`). -/
-theorem C05_list_all_histories (m : Nat) (ops : List AdjM.Op) (hf : LFits m 0 ops) :
-    LAbs (AdjM.run (AdjM.new m) ops).1 (lspecRun {} ops).1 ∧ (AdjM.run (AdjM.new m) ops).2 = (lspecRun {} ops).2 :=
-  AdjProofs.run_refines (new_abs m) ops hf
+`clear`), every answer is the specified one — for ANY history (the hypothesis `LFits m 0 ops` that restricted the
+histories before the repair of D31 is gone). -/
+theorem C05_list_all_histories (m : Nat) (ops : List AdjM.Op) :
+    LAbs (AdjM.run (AdjM.new m) ops).1 (lspecRun m {} ops).1 ∧
+    (AdjM.run (AdjM.new m) ops).2 = (lspecRun m {} ops).2 :=
+  AdjProofs.run_refines (new_abs m) ops
 
 /-- `find_edge`, `contains_edge`, `edge_endpoints`, `edge_weight`, `neighbors`, `edge_indices_from` agree with
 the insertion log: `find_edge` is the *first* inserted `a → b`, neighbours come in insertion order, an index
@@ -435,21 +477,21 @@ theorem C05_list_readers (s : AdjM.State) (g : ML) (h : LAbs s g) :
 
 /-- **every returned edge index stays valid**: until `clear`, an index that denotes an edge keeps denoting an
 edge with the same endpoints, whatever is called. -/
-theorem C05_list_index_stable (g : ML) (op : AdjM.Op) (hop : op ≠ .clear) (id : Nat × Nat) (e : MEdge)
+theorem C05_list_index_stable (m : Nat) (g : ML) (op : AdjM.Op) (hop : op ≠ .clear) (id : Nat × Nat) (e : MEdge)
     (h : g.get id = some e) :
-    ∃ e', (lspecStep g op).1.get id = some e' ∧ e'.id = e.id ∧ e'.src = e.src ∧ e'.tgt = e.tgt :=
-  AdjProofs.index_stable g op hop id e h
+    ∃ e', (lspecStep m g op).1.get id = some e' ∧ e'.id = e.id ∧ e'.src = e.src ∧ e'.tgt = e.tgt :=
+  AdjProofs.index_stable m g op hop id e h
 
 /-- **parallel edges are kept**: `add_edge` with in-range endpoints always appends one edge to the log and
 returns a fresh index, even when `a → b` already exists. -/
 theorem C05_list_parallel_kept (s : AdjM.State) (g : ML) (h : LAbs s g) (a b : Nat) (w : Int)
     (ha : a < g.n) (hb : b < g.n) :
-    (lspecStep g (.addEdge a b w)).1.edges.length = g.edges.length + 1 ∧
+    (lspecStep s.modulus g (.addEdge a b w)).1.edges.length = g.edges.length + 1 ∧
     (AdjM.step s (.addEdge a b w)).2 = .eix (a, (g.outOf a).length) ∧
     g.get (a, (g.outOf a).length) = none := by
   have hs : g.addEdge a b w = some (g.push a b w) := by simp [ML.addEdge, ha, hb]
   refine ⟨by simp [AdjProofs.specStep, hs, ML.push], ?_, h.get_none a _ (Nat.le_refl _)⟩
-  have := (AdjProofs.step_refines h (.addEdge a b w) (by simp)).2.1
+  have := (AdjProofs.step_refines h (.addEdge a b w)).2.1
   rw [this]; simp [AdjProofs.specStep, hs, ML.push]
 
 /-! non-vacuity -/
@@ -458,7 +500,7 @@ example : LFits 256 0 [.addNode, .addNode, .addEdge 0 1 5, .addEdge 0 1 6, .upda
 example : (AdjM.run (AdjM.new 256) [.addNode, .addNode, .addEdge 0 1 5, .addEdge 0 1 6, .updateEdge 0 1 9, .addEdge 0 7 1]).1.suc
     = [[(1, 9), (1, 6)], []] := by decide
 
-/-! ### wave 3: whole-graph iteration, capacity of the index type (finding D31) -/
+/-! ### wave 3: whole-graph iteration, capacity of the index type (finding D31, repaired) -/
 
 /-- the `EdgeReference` the log prescribes for an edge: `(source, successor_index, target, weight)` -/
 abbrev lrefOf := AdjProofs.refOf
@@ -469,7 +511,8 @@ theorem C05_list_edge_count (s : AdjM.State) (g : ML) (h : LAbs s g) : s.edgeCou
   h.edgeCount
 
 /-- **`edge_references()` / `edge_indices()` / `node_indices()`** (the iterators run to completion), within the
-capacity of the index type (`hcap`; otherwise the row index wraps through `Ix::new` — D31):
+capacity of the index type (`hcap`: it holds in every state reachable from `List::new()` —
+`C05_list_iteration_all_histories`, `C05_list_no_wrap_all_histories`):
 `edge_references()` yields the log GROUPED BY SOURCE — sources ascending, within one source in insertion order —
 each edge as `(source, successor_index, target, current weight)`; `edge_indices()` yields the indices of the same
 edges in the same order; `node_indices()` (= `node_identifiers()` = `node_references()`) yields `0, …, n-1`. -/
@@ -479,8 +522,9 @@ theorem C05_list_iteration (s : AdjM.State) (g : ML) (h : LAbs s g) (hcap : s.mo
     AdjM.nodeIndices s = List.range g.n :=
   h.iteration hcap
 
-/-- … without the capacity assumption: the row index is passed through `Ix::new` (`mkIx`), so beyond the capacity
-the edges of row `a` are reported with source `a % modulus`. -/
+/-- … without the capacity assumption (states that no history from `List::new()` reaches): the row index is passed
+through `Ix::new` (`mkIx`), so beyond the capacity the edges of row `a` would be reported with source
+`a % modulus`. -/
 theorem C05_list_iteration_raw (s : AdjM.State) (g : ML) (h : LAbs s g) :
     AdjM.edgeReferences s = ((List.range g.n).flatMap fun a =>
       (g.outOf a).map fun e => (AdjM.mkIx s.modulus a, e.id.2, e.tgt, e.w)) ∧
@@ -502,62 +546,103 @@ theorem C05_list_edges_of (s : AdjM.State) (g : ML) (h : LAbs s g) (a : Nat) :
     AdjM.edgesOf s a = if a < g.n then some ((g.outOf a).map lrefOf) else none :=
   h.edgesOf a
 
-/-- a history that `LFits` ends within the capacity of the index type -/
-theorem C05_list_fits_capacity (m : Nat) (ops : List AdjM.Op) (g : ML) (hf : LFits m g.n ops)
-    (hc : m = 0 ∨ g.n ≤ m) : m = 0 ∨ (lspecRun g ops).1.n ≤ m :=
-  AdjProofs.fits_cap m ops g hf hc
+/-- EVERY history that starts within the capacity of the index type ends within it: `add_node*` panic rather than
+exceed it.  (Before the repair of D31 this needed `LFits m g.n ops`.) -/
+theorem C05_list_fits_capacity (m : Nat) (ops : List AdjM.Op) (g : ML)
+    (hc : m = 0 ∨ g.n ≤ m) : m = 0 ∨ (lspecRun m g ops).1.n ≤ m :=
+  AdjProofs.run_cap m ops g hc
 
-/-- **whole-graph iteration, all histories**: in every state reachable from `List::new()` by a history within
-the capacity of the index type (`LFits`; D31 excludes the rest), `edge_count`, `edge_references`, `edge_indices`,
-`node_indices` and `edges(a)` report exactly the insertion log the same calls build, grouped by source. -/
-theorem C05_list_iteration_all_histories (m : Nat) (ops : List AdjM.Op) (hf : LFits m 0 ops) :
+/-- **whole-graph iteration, all histories**: in every state reachable from `List::new()` by ANY history (the
+`LFits` hypothesis that was needed before the repair of D31 is gone), `edge_count`, `edge_references`,
+`edge_indices`, `node_indices` and `edges(a)` report exactly the insertion log the same calls build, grouped by
+source. -/
+theorem C05_list_iteration_all_histories (m : Nat) (ops : List AdjM.Op) :
     let s := (AdjM.run (AdjM.new m) ops).1
-    let g := (lspecRun {} ops).1
+    let g := (lspecRun m {} ops).1
     s.edgeCount = g.edges.length ∧
     AdjM.edgeReferences s = ((List.range g.n).flatMap fun a => (g.outOf a).map lrefOf) ∧
     AdjM.edgeIndices s = ((List.range g.n).flatMap fun a => (g.outOf a).map (·.id)) ∧
     AdjM.nodeIndices s = List.range g.n ∧
     (∀ a, AdjM.edgesOf s a = if a < g.n then some ((g.outOf a).map lrefOf) else none) ∧
     ((List.range g.n).flatMap g.outOf).Perm g.edges :=
-  AdjProofs.run_iteration m ops hf
+  AdjProofs.run_iteration m ops
 
-/-- **finding D31, general form**: in every state whose node count has reached the capacity of the index type
-(`modulus ≠ 0`, `modulus ≤ node_count`) `add_node` / `add_node_with_capacity` / `add_node_from_edges` do not panic
-and return `node_count % modulus` — strictly below `node_count`, i.e. the index of a node that ALREADY EXISTS —
-whereas the specification answers the fresh index `node_count`. -/
-theorem C05_list_add_node_wraps (s : AdjM.State) (g : ML) (h : LAbs s g) (hm : s.modulus ≠ 0)
-    (hc : s.modulus ≤ g.n) (es : AdjM.Row) :
-    (AdjM.step s .addNode).2 = .ix (g.n % s.modulus) ∧
-    (AdjM.step s (.addNodeFromEdges es)).2 = .ix (g.n % s.modulus) ∧
-    g.n % s.modulus < g.n ∧
-    (lspecStep g .addNode).2 = .ix g.n ∧ (lspecStep g (.addNodeFromEdges es)).2 = .ix g.n ∧
-    (AdjM.step s .addNode).2 ≠ (lspecStep g .addNode).2 :=
-  AdjProofs.addNode_wraps h hm hc es
+/-- **finding D31 repaired, general form — `add_node*` and the capacity of the index type**, in EVERY state (the
+list has no representation invariant to assume).  At the capacity (`modulus ≠ 0`, `modulus ≤ node_count`; `u8`:
+256 nodes) `add_node` / `add_node_with_capacity` / `Build::add_node` (one model function) and
+`add_node_from_edges` are the documented panic (`none`) and the list is unchanged; below the capacity they
+succeed, append exactly the new row and return the FRESH index `node_count` — which is `< modulus`, so it fits
+the index type and `Ix::new` does not alter it. -/
+theorem C05_list_add_node_capacity (s : AdjM.State) (es : AdjM.Row) :
+    (s.modulus ≠ 0 ∧ s.modulus ≤ s.nodeCount →
+      AdjM.addNode s = none ∧ AdjM.addNodeFromEdges s es = none ∧
+      AdjM.step s .addNode = (s, .panic) ∧ AdjM.step s (.addNodeFromEdges es) = (s, .panic)) ∧
+    (s.modulus = 0 ∨ s.nodeCount < s.modulus →
+      AdjM.addNode s = some ({ s with suc := s.suc ++ [[]] }, s.nodeCount) ∧
+      AdjM.addNodeFromEdges s es = some ({ s with suc := s.suc ++ [es] }, s.nodeCount) ∧
+      AdjM.step s .addNode = ({ s with suc := s.suc ++ [[]] }, .ix s.nodeCount) ∧
+      AdjM.step s (.addNodeFromEdges es) = ({ s with suc := s.suc ++ [es] }, .ix s.nodeCount) ∧
+      AdjM.mkIx s.modulus s.nodeCount = s.nodeCount) :=
+  ⟨fun hc => (AdjProofs.addNode_capacity s es).1 (by omega), (AdjProofs.addNode_capacity s es).2⟩
 
-/-- **finding D31, concrete witness** (a 2-bit index type, `modulus = 4`; the `u8` case is the instance
-`modulus = 256` of `C05_list_add_node_wraps`): four `add_node`, then `add_node_from_edges([(1, 7)])` — the history
-does not `LFit` — answer `0, 1, 2, 3, 0`: the fifth node is reported as index 0, which is already live; the
-specification answers `0, 1, 2, 3, 4`.  Afterwards `node_count() = 5`, `node_indices()` yields 0 twice,
-`edge_references()` reports the fifth node's edge with source 0 (where `contains_edge(0, 1)` is false and
-`edges(0)` is empty), and `add_edge(returned index, …)` silently adds to the first node instead. -/
-theorem C05_list_add_node_wraps_counterexample :
-    ¬ LFits 4 0 [.addNode, .addNode, .addNode, .addNode, .addNodeFromEdges [(1, 7)]] ∧
+/-- … and against the specification: at the capacity model and insertion log both answer "panic" and both stay
+as they are; below it both answer the fresh index `g.n`. -/
+theorem C05_list_add_node_capacity_spec (s : AdjM.State) (g : ML) (h : LAbs s g) (es : AdjM.Row) :
+    (s.modulus ≠ 0 ∧ s.modulus ≤ g.n →
+      AdjM.step s .addNode = (s, .panic) ∧ lspecStep s.modulus g .addNode = (g, .panic) ∧
+      AdjM.step s (.addNodeFromEdges es) = (s, .panic) ∧ lspecStep s.modulus g (.addNodeFromEdges es) = (g, .panic)) ∧
+    (s.modulus = 0 ∨ g.n < s.modulus →
+      (AdjM.step s .addNode).2 = .ix g.n ∧ (lspecStep s.modulus g .addNode).2 = .ix g.n ∧
+      (AdjM.step s (.addNodeFromEdges es)).2 = .ix g.n ∧ (lspecStep s.modulus g (.addNodeFromEdges es)).2 = .ix g.n) := by
+  have hn : s.nodeCount = g.n := h.n.symm
+  obtain ⟨h1, h2⟩ := AdjProofs.addNode_capacity s es
+  rw [hn] at h1 h2
+  refine ⟨fun hc => ?_, fun hf => ?_⟩
+  · have hfull : ¬ (s.modulus = 0 ∨ g.n < s.modulus) := by omega
+    obtain ⟨_, _, e1, e2⟩ := h1 hfull
+    exact ⟨e1, by simp [AdjProofs.specStep, AdjProofs.addNodeCap_full _ g hfull], e2,
+      by simp [AdjProofs.specStep, AdjProofs.addNodeFromCap_full _ g es hfull]⟩
+  · obtain ⟨_, _, e1, e2, _⟩ := h2 hf
+    exact ⟨by rw [e1], by simp [AdjProofs.specStep, AdjProofs.addNodeCap_fit _ g hf, ML.addNode],
+      by rw [e2], by simp [AdjProofs.specStep, AdjProofs.addNodeFromCap_fit _ g es hf, ML.addNodeFrom]⟩
+
+/-- the node index an answer carries, if it is one -/
+abbrev loutIx := AdjProofs.outIx
+
+/-- **no wrap in any history**: along EVERY history from `List::new()` the node count never exceeds the capacity
+of the index type and every index an `add_node*` call returns fits the index type (`i < modulus`: `Ix::new(i)` is
+`i`, the node count at the time of the call — not the index of an existing node). -/
+theorem C05_list_no_wrap_all_histories (m : Nat) (ops : List AdjM.Op) :
+    (m = 0 ∨ (AdjM.run (AdjM.new m) ops).1.nodeCount ≤ m) ∧
+    ∀ i, some i ∈ (AdjM.run (AdjM.new m) ops).2.map loutIx → m = 0 ∨ i < m :=
+  AdjProofs.run_no_wrap (AdjM.new m) (Or.inr (Nat.zero_le _)) ops
+
+/-- **finding D31, the old witness, repaired** (a 2-bit index type, `modulus = 4`; the `u8` case is the instance
+`modulus = 256` of `C05_list_add_node_capacity`): four `add_node`, then `add_node_from_edges([(1, 7)])` used to
+answer `0, 1, 2, 3, 0` (the fifth node reported as the live index 0, its edge then listed under source 0).  Now
+model and specification answer `0, 1, 2, 3, panic`, the fifth call changes nothing (the state IS the state after
+four calls: `node_count() = 4`, `node_indices()` duplicate-free, no edge), a plain `add_node` as fifth call panics
+as well, and a following `add_edge(0, 2, 9)` goes to node 0 because the caller said so, not through a wrapped
+index. -/
+theorem C05_D31_witness_repaired_list :
     ((AdjM.run (AdjM.new 4) [.addNode, .addNode, .addNode, .addNode, .addNodeFromEdges [(1, 7)]]).2
-        = [.ix 0, .ix 1, .ix 2, .ix 3, .ix 0] ∧
-     (lspecRun {} [.addNode, .addNode, .addNode, .addNode, .addNodeFromEdges [(1, 7)]]).2
-        = [.ix 0, .ix 1, .ix 2, .ix 3, .ix 4] ∧
-     (AdjM.run (AdjM.new 4) [.addNode, .addNode, .addNode, .addNode, .addNodeFromEdges [(1, 7)]]).1.nodeCount = 5 ∧
+        = [.ix 0, .ix 1, .ix 2, .ix 3, .panic] ∧
+     (lspecRun 4 {} [.addNode, .addNode, .addNode, .addNode, .addNodeFromEdges [(1, 7)]]).2
+        = [.ix 0, .ix 1, .ix 2, .ix 3, .panic] ∧
+     (AdjM.run (AdjM.new 4) [.addNode, .addNode, .addNode, .addNode, .addNode]).2
+        = [.ix 0, .ix 1, .ix 2, .ix 3, .panic] ∧
+     (AdjM.run (AdjM.new 4) [.addNode, .addNode, .addNode, .addNode, .addNodeFromEdges [(1, 7)]]).1
+        = (AdjM.run (AdjM.new 4) [.addNode, .addNode, .addNode, .addNode]).1 ∧
+     (lspecRun 4 {} [.addNode, .addNode, .addNode, .addNode, .addNodeFromEdges [(1, 7)]]).1
+        = (lspecRun 4 {} [.addNode, .addNode, .addNode, .addNode]).1 ∧
+     (AdjM.run (AdjM.new 4) [.addNode, .addNode, .addNode, .addNode, .addNodeFromEdges [(1, 7)]]).1.nodeCount = 4 ∧
      AdjM.nodeIndices (AdjM.run (AdjM.new 4) [.addNode, .addNode, .addNode, .addNode, .addNodeFromEdges [(1, 7)]]).1
-        = [0, 1, 2, 3, 0] ∧
+        = [0, 1, 2, 3] ∧
      AdjM.edgeReferences (AdjM.run (AdjM.new 4) [.addNode, .addNode, .addNode, .addNode, .addNodeFromEdges [(1, 7)]]).1
-        = [(0, 0, 1, 7)] ∧
-     AdjM.containsEdge (AdjM.run (AdjM.new 4) [.addNode, .addNode, .addNode, .addNode, .addNodeFromEdges [(1, 7)]]).1 0 1
-        = false ∧
-     AdjM.edgesOf (AdjM.run (AdjM.new 4) [.addNode, .addNode, .addNode, .addNode, .addNodeFromEdges [(1, 7)]]).1 0
-        = some [] ∧
+        = [] ∧
      (AdjM.run (AdjM.new 4) [.addNode, .addNode, .addNode, .addNode, .addNodeFromEdges [(1, 7)], .addEdge 0 2 9]).1.suc
-        = [[(2, 9)], [], [], [], [(1, 7)]]) := by
-  refine ⟨by simp [AdjProofs.Fits], by decide⟩
+        = [[(2, 9)], [], [], []]) := by
+  decide
 
 /-! non-vacuity of the iteration theorem: parallel edges, an update, interleaved sources -/
 example : LFits 256 0 [.addNode, .addNode, .addEdge 1 0 5, .addEdge 0 1 6, .addEdge 1 0 7, .updateEdge 0 1 9] := by
@@ -565,7 +650,7 @@ example : LFits 256 0 [.addNode, .addNode, .addEdge 1 0 5, .addEdge 0 1 6, .addE
 example : AdjM.edgeReferences (AdjM.run (AdjM.new 256)
       [.addNode, .addNode, .addEdge 1 0 5, .addEdge 0 1 6, .addEdge 1 0 7, .updateEdge 0 1 9]).1
     = [(0, 0, 1, 9), (1, 0, 0, 5), (1, 1, 0, 7)] := by decide
-example : (lspecRun {} [.addNode, .addNode, .addEdge 1 0 5, .addEdge 0 1 6, .addEdge 1 0 7, .updateEdge 0 1 9]).1.edges.map lrefOf
+example : (lspecRun 256 {} [.addNode, .addNode, .addEdge 1 0 5, .addEdge 0 1 6, .addEdge 1 0 7, .updateEdge 0 1 9]).1.edges.map lrefOf
     = [(1, 0, 0, 5), (0, 0, 1, 9), (1, 1, 0, 7)] := by decide
 
 end AdjList
